@@ -233,7 +233,8 @@ def r2_ledger(ctx):
     mark_call(hfm, r"RequestManager::insert_notification_handler$", "handler-registered")
     mark_call(hfm, r"RequestManager::remove_notification_handler$", "handler-unregistered")
     # SubscriptionClosed arm: inside a closure `|req_id| build_unsubscribe_message(..)`
-    sc = [b for b in F.nested(hfm) if b.calls_to(r"helpers::build_unsubscribe_message$")]
+    from .common import frontend_family
+    sc = [b for root in [hfm] + frontend_family(F)[1] for b in F.nested(root) if b.calls_to(r"helpers::build_unsubscribe_message$")]
     if len(sc) != 1:
         raise AnchorLost("SubscriptionClosed arm calling build_unsubscribe_message")
     un = bum.calls_to(r"RequestManager::unsubscribe$")
@@ -484,11 +485,15 @@ def r7_failed_write_ends_the_task(ctx):
     from .common import awaited_value_local
     F, R = ctx.F, ctx.R
     n = 0
-    for pat in (r"^jsonrpsee_core::client::async_client::handle_frontend_messages::\{closure#0\}$", r"^jsonrpsee_core::client::async_client::helpers::stop_subscription::\{closure#0\}$"):
-        b = F.one(pat)
+    from .common import frontend_family
+    hfm_, helpers_ = frontend_family(F)
+    extra = "|".join(re.escape(h.path[:-len("::{closure#0}")]) + "$" for h in helpers_)
+    for b in [hfm_] + helpers_ + [F.one(r"^jsonrpsee_core::client::async_client::helpers::stop_subscription::\{closure#0\}$")]:
         R.fn(b)
         from .common import awaited_error_leaves_function
-        for c in b.calls_to(r"client::TransportSenderT::send$|async_client::helpers::stop_subscription$"):
+        for c in [x for x in b.calls if re.search(r"client::TransportSenderT::send$|async_client::helpers::stop_subscription$" + ("|" + extra if extra else ""), x.name() or x.callee or "") or re.search(r"client::TransportSenderT::send$", x.callee or "")]:
+            if re.search(r"\{closure#\d+\}$", c.name() or ""):
+                continue
             n += 1
             err_arms, ok = awaited_error_leaves_function(b, c)
             if err_arms is None:
